@@ -384,3 +384,22 @@ pub fn parse_values(rec: &str, bs: &[u8]) -> Option<(Vec<FV>, Vec<usize>, usize)
     }
     Some((vals, offs, pos))
 }
+
+/// The intended decoder over a stored publication point file (header,
+/// manifest if the header says "success", objects until the end): the record
+/// at which reading stops and how.
+pub fn mirror_file(data: &[u8]) -> (&'static str, Pred) {
+    let h = mirror_decode("StoredPointHeader", data);
+    if h.outcome != "value" { return ("StoredPointHeader", h) }
+    let mut pos = h.pos;
+    // update status tag: 9 bytes before the end of the header
+    if data[pos - 9] == 1 { return ("StoredPointHeader", h) }
+    let m = mirror_decode("StoredManifest", &data[pos..]);
+    if m.outcome != "value" { return ("StoredManifest", m) }
+    pos += m.pos;
+    loop {
+        let o = mirror_decode("StoredObject", &data[pos..]);
+        if o.outcome != "value" { return ("StoredObject", o) }
+        pos += o.pos;
+    }
+}
